@@ -81,6 +81,9 @@ func Call(fn string, args ...*Term) *Term {
 		// commutative: canonical argument order
 		args = append([]*Term{}, args...)
 		sortTerms(args)
+		if len(args) == 2 && args[0].Key() == args[1].Key() {
+			return args[0]
+		}
 	}
 	return capTerm(&Term{Op: "call", S: fn, Args: args})
 }
